@@ -1433,6 +1433,109 @@ fn eval_grid(g: &Grid, case: &Case, acc: &mut Acc) {
     }
 }
 
+/// Keys assembled with `new` from key material in its NON-default form (a private key flagged "uncompressed public key",
+/// a public key object in uncompressed SEC1 form): BIP32 always serialises public keys compressed, so strings, fingerprints
+/// and every descendant must equal the reference computed from the same scalar / point. Paths of depth up to 4.
+fn eval_uncompressed_material(g: &Grid, case: &Case, acc: &mut Acc) {
+    let nk = g.keys.len() as u64;
+    let nc = g.chains.len() as u64;
+    let paths: [&[u32]; 6] = [&[1], &[H], &[H, 1], &[1, 2], &[H, 1, H + 2, 2], &[0, H, 1]];
+    let c = coords(case.idx, &[2, nk, nc, 2, paths.len() as u64]);
+    let is_priv = c[0] == 0;
+    let key = &g.keys[c[1] as usize];
+    let (chain_name, chain_code) = &g.chains[c[2] as usize];
+    let depth = c[3] as u8;
+    let path = paths[c[4] as usize];
+    acc.evaluations += 1;
+    let root = XKey { is_private: is_priv, version: if is_priv { b58::XPRV_VERSION } else { b58::XPUB_VERSION }, depth, parent_fp: [0; 4], index: 0, chain_code: *chain_code, key: if is_priv { key.sk.to_vec() } else { key.pk.clone() } };
+    let input = json!({"kind": kind_name(is_priv), "key_material": if is_priv { "PrivateKey with compress_public_key(false)" } else { "PublicKey::to_decompressed()" }, "key_name": key.name, "chain_code_name": chain_name, "depth": depth, "path": path, "reference_root": b58::bip32_serialize(&root)});
+    acc.transitions += 1;
+    let built = guard(|| -> Result<LibKey, String> {
+        if is_priv {
+            let sk = bsv::PrivateKey::from_bytes(&key.sk).map_err(|e| e.to_string())?.compress_public_key(false);
+            Ok(LibKey::Prv(XPrv::new(&sk, chain_code, &depth, &0, None)))
+        } else {
+            let pk = bsv::PublicKey::from_bytes(&key.pk).map_err(|e| e.to_string())?.to_decompressed().map_err(|e| e.to_string())?;
+            Ok(LibKey::Pub(XPub::new(&pk, chain_code, &depth, &0, None)))
+        }
+    });
+    let lib = match built {
+        Ok(Ok(k)) => k,
+        Ok(Err(_)) => {
+            acc.bump("grid_key_material_rejected_by_library", 1);
+            return;
+        }
+        Err(p) => {
+            acc.violate(format!("C08/{}.new/kind=panic@{}", kind_name(is_priv), panic_site(&p)), case.idx, case.json(input), p);
+            return;
+        }
+    };
+    acc.outcome(&[is_priv as u8, c[4] as u8]);
+    match lib {
+        LibKey::Prv(x) => {
+            if let Ok(s) = guard(|| snap_xprv(&x)) {
+                check_snap(acc, case, "xprv.new", "/key-material=uncompressed-flag", &input, &s, &root, Some(&key.pk));
+            }
+            let want_p = XKey { is_private: false, version: b58::XPUB_VERSION, key: key.pk.clone(), ..root.clone() };
+            if let Ok(ps) = guard(|| snap_xpub(&XPub::from_xpriv(&x))) {
+                check_snap(acc, case, "xpub.from_xpriv", "/key-material=uncompressed-flag", &input, &ps, &want_p, None);
+            }
+            let mut cur = x;
+            let mut want = Some(root.clone());
+            for (i, ci) in path.iter().enumerate() {
+                acc.transitions += 1;
+                let parent_depth = depth + i as u8;
+                want = want.and_then(|w| b58::bip32_ckd_priv(&w, *ci));
+                let next = guard(|| cur.derive(*ci).map_err(|e| e.to_string()));
+                let snap = match &next {
+                    Ok(Ok(k)) => guard(|| snap_xprv(k)).map(Ok),
+                    Ok(Err(e)) => Ok(Err(e.clone())),
+                    Err(p) => Err(p.clone()),
+                };
+                let step_in = json!({"root": input, "step": i, "child_index": ci});
+                check_child(acc, case, "derive", *ci, parent_depth, &step_in, snap, want.clone());
+                // public twin of the node just reached
+                if let (Ok(Ok(k)), Some(w)) = (&next, &want) {
+                    let wp = XKey { is_private: false, version: b58::XPUB_VERSION, key: secp::encode_point(&secp::mul_g(&secp::from_be(&w.key)), true), ..w.clone() };
+                    if let Ok(ps) = guard(|| snap_xpub(&XPub::from_xpriv(k))) {
+                        check_snap(acc, case, "xpub.from_xpriv", "/key-material=uncompressed-flag", &step_in, &ps, &wp, None);
+                    }
+                }
+                match next {
+                    Ok(Ok(k)) => cur = k,
+                    _ => return,
+                }
+            }
+        }
+        LibKey::Pub(x) => {
+            if let Ok(s) = guard(|| snap_xpub(&x)) {
+                check_snap(acc, case, "xpub.new", "/key-material=uncompressed-form", &input, &s, &root, None);
+            }
+            let mut cur = x;
+            let mut want = Some(root.clone());
+            for (i, ci) in path.iter().enumerate() {
+                if *ci >= H {
+                    return;
+                }
+                acc.transitions += 1;
+                want = want.and_then(|w| b58::bip32_ckd_pub(&w, *ci));
+                let next = guard(|| cur.derive(*ci).map_err(|e| e.to_string()));
+                let snap = match &next {
+                    Ok(Ok(k)) => guard(|| snap_xpub(k)).map(Ok),
+                    Ok(Err(e)) => Ok(Err(e.clone())),
+                    Err(p) => Err(p.clone()),
+                };
+                let step_in = json!({"root": input, "step": i, "child_index": ci});
+                check_child(acc, case, "xpub.derive", *ci, depth + i as u8, &step_in, snap, want.clone());
+                match next {
+                    Ok(Ok(k)) => cur = k,
+                    _ => return,
+                }
+            }
+        }
+    }
+}
+
 // ------------------------------------------------------------------ spaces
 
 pub fn spaces(tier: Tier) -> Vec<Space> {
@@ -1562,6 +1665,10 @@ pub fn spaces(tier: Tier) -> Vec<Space> {
     // 9. field grid: keys assembled with `new` over depth × index × parent fingerprint (incl. None) × key × chain code, both kinds
     let g = grid(tier);
     v.push(Space::new("field-grid", g.size(), move |case, acc| eval_grid(&g, case, acc)));
+    // 10. the same constructors fed with key material in its non-default form, descendants to depth 4
+    let g2 = grid(tier);
+    let n10 = 2 * g2.keys.len() as u64 * g2.chains.len() as u64 * 2 * 6;
+    v.push(Space::new("uncompressed-key-material", n10, move |case, acc| eval_uncompressed_material(&g2, case, acc)));
     v
 }
 
